@@ -60,6 +60,10 @@ def concretise(hist, rng):
     # every fourth history in tenths of a second: carrier onset + Delay then differs from the onset written in the other rows of
     # the time point by floating-point noise (0.1 + 0.2 vs 0.3) - they are still one time point
     small = rng.random() < 0.25
+    # every third history: Delay-shifted markers are always written the same way (one spelling per name, one delay, nothing else
+    # in the carrier), so that carrier rows of different time points can hold IDENTICAL text
+    samecarrier = rng.random() < 0.34
+    dfix = rng.choice([3, 5]) if not small else rng.choice([2, 3])
     for j, idxs in enumerate(tps):
         t = (j + 1) * 10
         mode = rng.choice(["one", "one", "rows", "delay", "delay"])
@@ -79,10 +83,18 @@ def concretise(hist, rng):
                 continue
             texts.append(_marker_text(hist[i]["k"], spell[i], i))
         if delayed:
-            d = rng.choice([3, 5, 2.5]) if not small else rng.choice([2, 3, 7])
-            carrier = ", ".join(_marker_text(hist[i]["k"], spell[i], i, delay=(d / 100.0 if small else d)) for i in delayed)
-            if rng.random() < 0.5:
-                carrier = "Green, " + carrier
+            if samecarrier:
+                d = dfix
+                for i in delayed:        # (within ONE time point every marker keeps a spelling of its own)
+                    fixed = _spelling(hist[i]["key"], 0)
+                    if fixed not in [spell[x] for x in idxs if x != i]:
+                        spell[i] = fixed
+                carrier = ", ".join(_marker_text(hist[i]["k"], spell[i], 0, delay=(d / 100.0 if small else d)) for i in delayed)
+            else:
+                d = rng.choice([3, 5, 2.5]) if not small else rng.choice([2, 3, 7])
+                carrier = ", ".join(_marker_text(hist[i]["k"], spell[i], i, delay=(d / 100.0 if small else d)) for i in delayed)
+                if rng.random() < 0.5:
+                    carrier = "Green, " + carrier
             ct = t - d
             rows.append((ct, 0, ("%g" % (ct / 100.0)) if small else (("%s" % ct) if d == 2.5 else fmt % int(ct)), carrier, j))
         if mode == "rows" and len(texts) > 1:
@@ -201,9 +213,14 @@ def execute(case):
             unattributed.append(iss.get("message", "")[:120])
     opens = []
     hasopen = True
+    lastcall = -1
     for idxs in tps:
         first = "Def/" + spell[idxs[0]]
-        hit = [c for c in calls if first in c[0]]
+        # (calls come in time order; a spelling may recur in a later time point: look only behind the previous point's call)
+        hitx = [(ci, c) for ci, c in enumerate(calls) if ci > lastcall and first in c[0]]
+        hit = [c for _, c in hitx]
+        if hitx:
+            lastcall = hitx[0][0]
         if not hit or hit[0][1] is None:
             hasopen = False
             opens.append([])
